@@ -87,7 +87,7 @@ func (w *xw) leaf(name, text string) { w.line("<" + name + ">" + text + "</" + n
 
 type gdep struct {
 	g, a, ver, typ, cls, scope string
-	verRaw                      string // raw inner XML of <version> when decorated
+	verRaw                     string // raw inner XML of <version> when decorated
 }
 
 func (w *xw) dep(d gdep, comments bool) {
@@ -203,7 +203,7 @@ func (o pomOpt) render() (map[string]string, []string) {
 		if o.VerDecor {
 			lit.verRaw = "<!-- pinned -->1.0"
 		}
-		dl = append(dl, lit, gdep{g: "org.lit", a: "cls", ver: "1.0", typ: "test-jar", cls: "tests", scope: "test"})
+		dl = append(dl, lit, gdep{g: "org.lit", a: "lit", ver: "1.5", typ: "test-jar", cls: "tests", scope: "test"})
 	}
 	if o.Mgmt {
 		mg := gdep{g: "org.mg", a: "mg", ver: "1.0"}
@@ -482,7 +482,7 @@ func explorePomDoc(r *ev.Run, d *pomDoc) {
 			}
 			cs := base
 			for _, idx := range sub {
-				cs.Updates = append(cs.Updates, updSpec{Name: in.mIn.deps[idx].name(), To: pomTargets[t]})
+				cs.Updates = append(cs.Updates, in.mIn.deps[idx].upd(pomTargets[t]))
 			}
 			run(&cs)
 		}
@@ -490,7 +490,7 @@ func explorePomDoc(r *ev.Run, d *pomDoc) {
 			for t := 0; t < d.Rot; t++ {
 				cs := base
 				for j, idx := range sub {
-					cs.Updates = append(cs.Updates, updSpec{Name: in.mIn.deps[idx].name(), To: pomTargets[(t+j)%len(pomTargets)]})
+					cs.Updates = append(cs.Updates, in.mIn.deps[idx].upd(pomTargets[(t+j)%len(pomTargets)]))
 				}
 				run(&cs)
 			}
@@ -514,6 +514,32 @@ type pdep struct {
 }
 
 func (d *pdep) name() string { return d.G + ":" + d.A }
+
+// depID identifies a requirement the way Maven does: groupId:artifactId plus type and classifier
+// when they are not the defaults.
+func depID(name, typ, cls string) string {
+	if typ == "jar" {
+		typ = ""
+	}
+	if typ == "" && cls == "" {
+		return name
+	}
+	return name + "|" + typ + "|" + cls
+}
+
+func (d *pdep) id() string { return depID(d.name(), d.Type, d.Cls) }
+
+func (d *pdep) upd(to string) updSpec {
+	return updSpec{Name: d.name(), ArtifactType: d.Type, Classifier: d.Cls, To: to}
+}
+
+func (u updSpec) id() string { return depID(u.Name, u.ArtifactType, u.Classifier) }
+
+func reqID(q resolve.RequirementVersion) string {
+	t, _ := q.Type.GetAttr(dep.MavenArtifactType)
+	c, _ := q.Type.GetAttr(dep.MavenClassifier)
+	return depID(q.Name, t, c)
+}
 
 type pprop struct {
 	File      int
@@ -694,7 +720,7 @@ func (m *pomModel) effective(d *pdep) string {
 // ---------------------------------------------------------------------------
 
 type readReq struct {
-	Name, Type, Version string
+	ID, Name, Type, Version string
 }
 
 func pomReadReqs(rw guidedremediation.VerifReadWriter, fsys scalibrfs.FS, main string) (guidedremediation.VerifManifest, []resolve.RequirementVersion, []readReq, error) {
@@ -725,7 +751,7 @@ func pomReadReqs(rw guidedremediation.VerifReadWriter, fsys scalibrfs.FS, main s
 			continue
 		}
 		keep = append(keep, q)
-		out = append(out, readReq{q.Name, q.Type.String(), q.Version})
+		out = append(out, readReq{reqID(q), q.Name, q.Type.String(), q.Version})
 	}
 	return man, keep, out, nil
 }
@@ -770,17 +796,17 @@ func preparePom(cs *caseSpec, dir string) (in *pomInput, discs []disc) {
 	}
 	in.byName = map[string]*pdep{}
 	for _, d := range in.mIn.deps {
-		if in.byName[d.name()] != nil {
-			bad("harness:pom-duplicate-artifact", "%s declared twice", d.name())
+		if in.byName[d.id()] != nil {
+			bad("harness:pom-duplicate-artifact", "%s declared twice", d.id())
 			return
 		}
-		in.byName[d.name()] = d
+		in.byName[d.id()] = d
 	}
 	// self-check: the model's interpolation agrees with what Read reports for the input
 	for _, q := range in.reqsIn {
-		d := in.byName[q.Name]
+		d := in.byName[q.ID]
 		if d == nil {
-			bad("harness:pom-model-disagrees-with-read", "Read reports %s which the model does not know", q.Name)
+			bad("harness:pom-model-disagrees-with-read", "Read reports %s which the model does not know", q.ID)
 			return
 		}
 		if !strings.Contains(q.Version, "${") && q.Version != in.mIn.effective(d) {
@@ -808,19 +834,19 @@ func runPomWith(in *pomInput, cs *caseSpec, outDir string) (o outcome) {
 	target := map[string]string{} // dep name -> requested version
 	var pus []result.PackageUpdate
 	for _, u := range cs.Updates {
-		d := byName[u.Name]
+		d := byName[u.id()]
 		if d == nil {
-			bad("harness:update-addresses-unknown-requirement", "%s", u.Name)
+			bad("harness:update-addresses-unknown-requirement", "%s", u.id())
 			return
 		}
-		target[u.Name] = u.To
+		target[u.id()] = u.To
 		if mIn.effective(d) != u.To {
 			o.changed = true
 		}
 		pu := result.PackageUpdate{Name: u.Name, VersionFrom: mIn.effective(d), VersionTo: u.To}
 		found := false
 		for _, q := range rawIn {
-			if q.Name == u.Name {
+			if reqID(q) == u.id() {
 				pu.Type = q.Type.Clone()
 				pu.VersionFrom = q.Version
 				found = true
@@ -889,7 +915,7 @@ func runPomWith(in *pomInput, cs *caseSpec, outDir string) (o outcome) {
 	free := map[*xnode]bool{}
 	targetProps := map[*pprop]bool{}
 	for _, d := range mIn.deps {
-		if _, ok := target[d.name()]; !ok {
+		if _, ok := target[d.id()]; !ok {
 			continue
 		}
 		if d.VerNode != nil {
@@ -950,13 +976,13 @@ func runPomWith(in *pomInput, cs *caseSpec, outDir string) (o outcome) {
 	for i, d := range mIn.deps {
 		dOut := mOut.deps[i]
 		effIn, effOut := mIn.effective(d), mOut.effective(dOut)
-		if to, ok := target[d.name()]; ok {
+		if to, ok := target[d.id()]; ok {
 			if effOut == to {
 				continue
 			}
-			flagged[d.name()] = true
+			flagged[d.id()] = true
 			if effOut != effIn {
-				bad("pom:wrong-version-written", "%s: effective version %q, requested %q (was %q)", d.name(), effOut, to, effIn)
+				bad("pom:wrong-version-written", "%s: effective version %q, requested %q (was %q)", d.id(), effOut, to, effIn)
 				continue
 			}
 			key := "pom:silent-non-application"
@@ -966,16 +992,16 @@ func runPomWith(in *pomInput, cs *caseSpec, outDir string) (o outcome) {
 			case refsElsewhere(mIn, d):
 				key = "pom:property-defined-in-other-pom"
 			}
-			bad(key, "Write returned nil but %s (%s, origin %q, version %q) still has effective version %q, requested %q", d.name(), chain[d.File], d.Origin, d.Ver, effOut, to)
+			bad(key, "Write returned nil but %s (%s, origin %q, version %q) still has effective version %q, requested %q", d.id(), chain[d.File], d.Origin, d.Ver, effOut, to)
 			continue
 		}
 		if effOut != effIn || d.Ver != dOut.Ver {
-			flagged[d.name()] = true
+			flagged[d.id()] = true
 			key := "pom:collateral-change"
 			if sharesTargetedProperty(mIn, d, target) {
 				key = "pom:shared-property-collateral-change"
 			}
-			bad(key, "%s (%s) was not targeted but its version changed: %q (=%q) -> %q (=%q)", d.name(), chain[d.File], d.Ver, effIn, dOut.Ver, effOut)
+			bad(key, "%s (%s) was not targeted but its version changed: %q (=%q) -> %q (=%q)", d.id(), chain[d.File], d.Ver, effIn, dOut.Ver, effOut)
 		}
 	}
 	// untargeted properties must keep their value (also those no dependency uses)
@@ -996,20 +1022,20 @@ func runPomWith(in *pomInput, cs *caseSpec, outDir string) (o outcome) {
 	norm := func(qs []readReq, m *pomModel, subst bool) []string {
 		names := map[string]*pdep{}
 		for _, d := range m.deps {
-			names[d.name()] = d
+			names[d.id()] = d
 		}
 		var out []string
 		for _, q := range qs {
 			v := q.Version
 			if strings.Contains(v, "${") {
-				if d := names[q.Name]; d != nil {
+				if d := names[q.ID]; d != nil {
 					v = m.effective(d)
 				}
 			}
-			if to, ok := target[q.Name]; ok && subst {
+			if to, ok := target[q.ID]; ok && subst {
 				v = to
 			}
-			out = append(out, q.Name+" | "+q.Type+" | "+v)
+			out = append(out, q.ID+" | "+q.Type+" | "+v)
 		}
 		sort.Strings(out)
 		return out
@@ -1071,7 +1097,7 @@ func sharesTargetedProperty(m *pomModel, d *pdep, target map[string]string) bool
 		}
 	}
 	for _, t := range m.deps {
-		if _, ok := target[t.name()]; !ok {
+		if _, ok := target[t.id()]; !ok {
 			continue
 		}
 		for _, rn := range refsOf(t.Ver) {
@@ -1101,7 +1127,7 @@ func stripAppendedDepMgmt(inRoot, outRoot *xnode, outTree []*xnode, target map[s
 	ok := true
 	if ds := blk.kid("dependencies"); ds != nil {
 		for _, dn := range ds.kidsNamed("dependency") {
-			n := dn.kid("groupId").text() + ":" + dn.kid("artifactId").text()
+			n := depID(dn.kid("groupId").text()+":"+dn.kid("artifactId").text(), dn.kid("type").text(), dn.kid("classifier").text())
 			if to, t := target[n]; !t || dn.kid("version").text() != to {
 				ok = false
 			}
